@@ -295,3 +295,316 @@ Proof.
   intros Hl. rewrite key_sp_list. destruct l as [|a r]; [reflexivity|].
   rewrite pe_rootids. rewrite (parse_rootids_dec (a :: r) Hl). reflexivity.
 Qed.
+
+(** ** the lines of [print_header] and the entries they parse to *)
+
+Notation xlines := header_lines.
+
+Definition xentries (x : xheader) : list entry :=
+  [EVer; EMode (x_ascii x); EVarinfo VINone] ++
+  (if is_nil (x_dd x) then [] else [EDd (utf8_lossy (trim (wdd x)))]) ++
+  [ENnodes (x_nnodes x); ENvars (x_nvars x); ENsupp (len (x_supp x))] ++
+  (match x_names x with
+   | None => []
+   | Some names =>
+     (if x_ver3 x then [EVarnames names] else []) ++
+     [ESuppnames (map (name_of names) (x_ids x)); EOrdered (map (name_of names) (x_l2v x))]
+   end) ++
+  [EIds (x_ids x); EPermids (x_permids x); ENroots (len (x_rootids x)); ERootids (x_rootids x)] ++
+  (match x_rootnames x with None => [] | Some rn => [ERootnames rn] end).
+
+Lemma unlines_app a b : unlines (a ++ b) = unlines a ++ unlines b.
+Proof. apply flat_map_app. Qed.
+
+Lemma print_header_lines x : print_header x = unlines (xlines x) ++ bs ".nodes" ++ [10].
+Proof. reflexivity. Qed.
+
+(** the well-formedness of the exporter-side header: what [export_common] reads from a manager *)
+Record xwf (x : xheader) : Prop := {
+  xw_nnodes : x_nnodes x < usize_limit;
+  xw_nvars : x_nvars x < u32_limit;
+  (* [var_to_level] is injective into [0, nvars) and [level_to_var] is its inverse *)
+  xw_levels : Forall (fun p => fst p < x_nvars x) (x_vars x);
+  xw_levels_nodup : NoDup (map fst (x_vars x));
+  xw_l2v_len : len (x_l2v x) = x_nvars x;
+  xw_l2v : forall v l s, nth_error (x_vars x) v = Some (l, s) -> nth_error (x_l2v x) (N.to_nat l) = Some (N.of_nat v);
+  (* names as [write_var] prints them *)
+  xw_names : match x_names x with None => True | Some ns => len ns = x_nvars x /\ Forall good_name ns end;
+  xw_nroots : len (x_rootids x) < usize_limit;
+  xw_rootids : Forall (fun r => r <> 0%Z /\ Z.abs_N r <= x_nnodes x /\ Z.abs_N r <= isize_max) (x_rootids x);
+  xw_rootnames : match x_rootnames x with
+                 | None => True
+                 | Some rn => length rn = length (x_rootids x) /\ Forall good_name rn
+                 end
+}.
+
+(** *** facts about the support lists *)
+
+Lemma supp_from_spec : forall vars v p,
+  In p (supp_from v vars) <->
+  exists i, nth_error vars i = Some (snd p, true) /\ fst p = v + N.of_nat i.
+Proof.
+  induction vars as [|[l s] vars IH]; intros v p; cbn [supp_from].
+  - split; [intros []|intros (i & H & _); destruct i; discriminate].
+  - assert (Hrec : In p (supp_from (v + 1) vars) <->
+                   exists i, nth_error ((l, s) :: vars) (S i) = Some (snd p, true) /\ fst p = v + N.of_nat (S i)).
+    { rewrite IH. split; intros (i & H & E); exists i; (split; [exact H|lia]). }
+    destruct s.
+    + split.
+      * intros [<-|H]; [exists O; cbn; split; [reflexivity|lia]|].
+        apply Hrec in H. destruct H as (i & H & E). exists (S i). auto.
+      * intros ([|i] & H & E).
+        -- left. cbn in H. inversion H. destruct p; cbn in *. f_equal; lia.
+        -- right. apply Hrec. exists i. auto.
+    + rewrite Hrec. split.
+      * intros (i & H & E). exists (S i). auto.
+      * intros ([|i] & H & E); [cbn in H; inversion H|]. exists i. auto.
+Qed.
+
+Lemma supp_from_length : forall vars v, (length (supp_from v vars) <= length vars)%nat.
+Proof. induction vars as [|[l [|]] vars IH]; intros v; cbn; [lia| |]; specialize (IH (v + 1)); lia. Qed.
+
+Lemma supp_from_sorted : forall vars v,
+  sorted_strict (map fst (supp_from v vars)) = true /\ Forall (fun p => v <= fst p) (supp_from v vars).
+Proof.
+  induction vars as [|[l s] vars IH]; intros v; cbn [supp_from]; [split; [reflexivity|constructor]|].
+  destruct (IH (v + 1)) as [Hs Hf].
+  assert (Hf' : Forall (fun p => v <= fst p) (supp_from (v + 1) vars)).
+  { eapply Forall_impl; [|exact Hf]. cbn. intros; lia. }
+  destruct s; [|split; assumption]. split; [|constructor; [cbn; lia|exact Hf']].
+  cbn [map fst]. destruct (supp_from (v + 1) vars) as [|q r] eqn:E; [reflexivity|].
+  cbn [map sorted_strict] in *. rewrite Hs. inversion Hf; subst.
+  destruct (N.ltb_spec v (fst q)); [reflexivity|lia].
+Qed.
+
+(** *** every line is plain and parses to its entry *)
+
+Lemma plain_key_app (k v : list byte) : k <> [] -> Forall okb k -> Forall okb v -> plain (k ++ v).
+Proof.
+  intros Hk Fk Fv. split; [destruct k; [contradiction|discriminate]|]. apply Forall_app. split; assumption.
+Qed.
+
+Ltac okb_closed := repeat constructor; discriminate.
+
+Lemma Forall_okb_bs_key (k : list byte) : forallb (fun b => negb ((b =? 10) || (b =? 13))) k = true -> Forall okb k.
+Proof.
+  intros H. apply Forall_forall. intros b Hb. rewrite forallb_forall in H. specialize (H b Hb).
+  destruct (N.eqb_spec b 10); [discriminate|]. destruct (N.eqb_spec b 13); [discriminate|]. split; assumption.
+Qed.
+
+Ltac plain_line := apply plain_key_app; [discriminate|apply Forall_okb_bs_key; reflexivity|].
+
+Definition line_entry (l : list byte) (e : entry) : Prop := plain l /\ parse_entry l = HOk e /\ e <> ENodes.
+
+Lemma sp_list_map {A} (f : A -> list byte) l : sp_list f l = sp_list ident (map f l).
+Proof. unfold sp_list. induction l as [|a l IH]; cbn; [reflexivity|]. rewrite IH. reflexivity. Qed.
+
+Lemma le_number (key : string) (mk : N -> entry) limit n :
+  (forall v, parse_entry (bs key ++ 32 :: v) = hmap mk (parse_single_go limit (trim v) 0 false)) ->
+  bs key <> [] -> forallb (fun b => negb ((b =? 10) || (b =? 13))) (bs key) = true ->
+  (forall m, mk m <> ENodes) ->
+  n < limit -> line_entry ((bs key ++ [32]) ++ dec n) (mk n).
+Proof.
+  intros Hk Hne Hkb Hmk Hn. split; [|split].
+  - rewrite <- app_assoc. apply plain_key_app; [exact Hne|apply Forall_okb_bs_key; exact Hkb|].
+    constructor; [split; discriminate|apply Forall_okb_dec].
+  - rewrite <- app_assoc. cbn [app]. rewrite Hk, parse_single_dec by exact Hn. reflexivity.
+  - apply Hmk.
+Qed.
+
+Lemma le_names (key : string) (mk : list (list byte) -> entry) l :
+  (forall v, parse_entry (bs key ++ 32 :: v) = HOk (mk (parse_str_list (trim v)))) ->
+  parse_entry (bs key) = HOk (mk []) ->
+  bs key <> [] -> forallb (fun b => negb ((b =? 10) || (b =? 13))) (bs key) = true ->
+  (forall m, mk m <> ENodes) ->
+  Forall good_name l -> line_entry (bs key ++ sp_list ident l) (mk l).
+Proof.
+  intros Hk H0 Hne Hkb Hmk Hl. split; [|split].
+  - apply plain_key_app; [exact Hne|apply Forall_okb_bs_key; exact Hkb|].
+    apply Forall_okb_sp_list. eapply Forall_impl; [|exact Hl]. apply good_name_okb.
+  - apply pe_names_list; assumption.
+  - apply Hmk.
+Qed.
+
+Lemma le_u32s (key : string) (mk : list N -> entry) l :
+  (forall v, parse_entry (bs key ++ 32 :: v) = hmap mk (parse_u32_list (trim v))) ->
+  parse_entry (bs key) = HOk (mk []) ->
+  bs key <> [] -> forallb (fun b => negb ((b =? 10) || (b =? 13))) (bs key) = true ->
+  (forall m, mk m <> ENodes) ->
+  Forall (fun x => x < u32_limit) l -> line_entry (bs key ++ sp_list dec l) (mk l).
+Proof.
+  intros Hk H0 Hne Hkb Hmk Hl. split; [|split].
+  - apply plain_key_app; [exact Hne|apply Forall_okb_bs_key; exact Hkb|].
+    apply Forall_okb_sp_list. apply Forall_forall. intros; apply Forall_okb_dec.
+  - apply pe_u32_list; assumption.
+  - apply Hmk.
+Qed.
+
+Lemma x_ids_range x : xwf x -> Forall (fun v => v < x_nvars x) (x_ids x).
+Proof.
+  intros Hx. unfold x_ids. rewrite Forall_map. apply Forall_forall. intros p Hp.
+  apply supp_from_spec in Hp. destruct Hp as (i & Hi & E).
+  assert (i < length (x_vars x))%nat by (apply nth_error_Some; congruence).
+  unfold x_nvars, len. lia.
+Qed.
+
+Lemma x_permids_range x : xwf x -> Forall (fun l => l < x_nvars x) (x_permids x).
+Proof.
+  intros Hx. unfold x_permids. rewrite Forall_map. apply Forall_forall. intros p Hp.
+  apply supp_from_spec in Hp. destruct Hp as (i & Hi & E).
+  pose proof (xw_levels x Hx) as Hl. rewrite Forall_forall in Hl.
+  apply (Hl (snd p, true)). eapply nth_error_In. exact Hi.
+Qed.
+
+Lemma Forall_lt_trans (l : list N) a b : a <= b -> Forall (fun v => v < a) l -> Forall (fun v => v < b) l.
+Proof. intros H. apply Forall_impl. intros; lia. Qed.
+
+Lemma name_of_good names v : Forall good_name names -> (N.to_nat v < length names)%nat -> good_name (name_of names v).
+Proof.
+  intros Hn Hv. unfold name_of. rewrite Forall_forall in Hn. apply Hn. apply nth_In. exact Hv.
+Qed.
+
+Lemma x_l2v_range x : xwf x -> Forall (fun v => v < x_nvars x) (x_l2v x).
+Proof.
+  intros Hx. apply Forall_forall. intros v Hv. apply In_nth_error in Hv. destruct Hv as [l Hl].
+  (* every level below nvars is the level of some variable (pigeonhole) *)
+  assert (Hlt : (l < length (x_l2v x))%nat) by (apply nth_error_Some; congruence).
+  pose proof (xw_l2v_len x Hx) as Hlen. unfold x_nvars, len in *.
+  set (levels := map fst (x_vars x)).
+  assert (Hincl : incl (map N.of_nat (seq 0 (length (x_vars x)))) levels).
+  { apply NoDup_length_incl.
+    - apply (xw_levels_nodup x Hx).
+    - unfold levels. rewrite !map_length, seq_length. lia.
+    - intros a Ha. unfold levels in Ha. apply in_map_iff in Ha. destruct Ha as (p & <- & Hp).
+      pose proof (xw_levels x Hx) as Hr. rewrite Forall_forall in Hr. specialize (Hr p Hp). unfold x_nvars, len in Hr.
+      apply in_map_iff. exists (N.to_nat (fst p)). split; [lia|]. apply in_seq. lia. }
+  assert (Hin : In (N.of_nat l) levels).
+  { apply Hincl. apply in_map. apply in_seq. lia. }
+  unfold levels in Hin. apply in_map_iff in Hin. destruct Hin as ([l' s] & El & Hp). cbn in El. subst l'.
+  apply In_nth_error in Hp. destruct Hp as [w Hw].
+  pose proof (xw_l2v x Hx w _ _ Hw) as H. rewrite Nat2N.id in H.
+  assert (v = N.of_nat w) by congruence. subst v.
+  assert (w < length (x_vars x))%nat by (apply nth_error_Some; congruence). lia.
+Qed.
+
+Lemma lines_entries x : xwf x -> Forall2 line_entry (xlines x) (xentries x).
+Proof.
+  intros Hx. unfold xlines, xentries.
+  pose proof (x_ids_range x Hx) as Hids. pose proof (x_permids_range x Hx) as Hperm.
+  pose proof (xw_nvars x Hx) as Hnv.
+  repeat apply Forall2_app.
+  - (* .ver .mode .varinfo *)
+    unfold vername. destruct (x_ver3 x), (x_ascii x);
+      repeat constructor; solve [discriminate | apply Forall_okb_bs_key; reflexivity].
+  - (* .dd *)
+    destruct (x_dd x) as [|c dd] eqn:Edd; cbn [is_nil]; [constructor|]. constructor; [|constructor].
+    split; [|split; [|discriminate]].
+    + plain_line. unfold wdd, write_replacing_control. cbn [fst]. rewrite Forall_map.
+      apply Forall_forall. intros b _. destruct (is_ascii_control b) eqn:E; [split; discriminate|apply okb_no_control; exact E].
+    + change (bs ".dd " ++ wdd x) with (bs ".dd" ++ 32 :: wdd x). apply pe_dd.
+  - (* numbers *)
+    constructor; [|constructor; [|constructor; [|constructor]]].
+    + apply (le_number ".nnodes" ENnodes usize_limit); [apply pe_nnodes|discriminate|reflexivity|discriminate|apply Hx].
+    + apply (le_number ".nvars" ENvars u32_limit); [apply pe_nvars|discriminate|reflexivity|discriminate|exact Hnv].
+    + apply (le_number ".nsuppvars" ENsupp u32_limit); [apply pe_nsupp|discriminate|reflexivity|discriminate|].
+      pose proof (supp_from_length (x_vars x) 0). unfold x_supp, x_nvars in *. unfold len in *. lia.
+  - (* names *)
+    pose proof (xw_names x Hx) as Hn. destruct (x_names x) as [names|]; [|constructor].
+    destruct Hn as [Hlen Hgood]. apply Forall2_app.
+    + destruct (x_ver3 x); [|constructor]. constructor; [|constructor].
+      apply (le_names ".varnames" EVarnames); [apply pe_varnames|reflexivity|discriminate|reflexivity|discriminate|exact Hgood].
+    + assert (Hnm : forall l, Forall (fun v => v < x_nvars x) l -> Forall good_name (map (name_of names) l)).
+      { intros l Hl. rewrite Forall_map. eapply Forall_impl; [|exact Hl]. intros v Hv.
+        apply name_of_good; [exact Hgood|]. cbv beta in Hv. unfold len in Hlen. lia. }
+      constructor; [|constructor; [|constructor]].
+      * rewrite sp_list_map.
+        apply (le_names ".suppvarnames" ESuppnames); [apply pe_suppnames|reflexivity|discriminate|reflexivity|discriminate|].
+        apply Hnm. exact Hids.
+      * rewrite sp_list_map.
+        apply (le_names ".orderedvarnames" EOrdered); [apply pe_ordered|reflexivity|discriminate|reflexivity|discriminate|].
+        apply Hnm. apply x_l2v_range. exact Hx.
+  - (* .ids .permids .nroots .rootids *)
+    constructor; [|constructor; [|constructor; [|constructor; [|constructor]]]].
+    + apply (le_u32s ".ids" EIds); [apply pe_ids|reflexivity|discriminate|reflexivity|discriminate|].
+      eapply Forall_lt_trans; [|exact Hids]. lia.
+    + apply (le_u32s ".permids" EPermids); [apply pe_permids|reflexivity|discriminate|reflexivity|discriminate|].
+      eapply Forall_lt_trans; [|exact Hperm]. lia.
+    + apply (le_number ".nroots" ENroots usize_limit); [apply pe_nroots|discriminate|reflexivity|discriminate|apply Hx].
+    + split; [|split; [|discriminate]].
+      * plain_line. apply Forall_okb_sp_list. apply Forall_forall. intros; apply Forall_okb_dec_z.
+      * apply pe_rootids_list. eapply Forall_impl; [|apply (xw_rootids x Hx)]. cbn. tauto.
+  - (* .rootnames *)
+    pose proof (xw_rootnames x Hx) as Hr. destruct (x_rootnames x) as [rn|]; [|constructor].
+    constructor; [|constructor].
+    apply (le_names ".rootnames" ERootnames); [apply pe_rootnames|reflexivity|discriminate|reflexivity|discriminate|apply Hr].
+Qed.
+
+(** ** the loop over the lines *)
+
+Definition hl (st : hstate) (inp : list byte) : hres (hstate * list byte) :=
+  header_loop (S (length inp)) st inp.
+
+Lemma header_loop_S f st inp :
+  header_loop (S f) st inp =
+  match read_line inp with
+  | Err _ => HErr HEof
+  | Ok (line, rest) =>
+    e <~ parse_entry line ;;
+    match e with
+    | ENodes => HOk (st, rest)
+    | _ => header_loop f (apply_entry st e) rest
+    end
+  end.
+Proof. reflexivity. Qed.
+
+Lemma hl_step st l e rest : line_entry l e -> hl st (l ++ 10 :: rest) = hl (apply_entry st e) rest.
+Proof.
+  intros (Hp & He & Hn). unfold hl at 1. rewrite header_loop_S.
+  rewrite read_line_plain by exact Hp. rewrite He. cbn [hbind].
+  assert (header_loop (length (l ++ 10 :: rest)) (apply_entry st e) rest = hl (apply_entry st e) rest).
+  { apply header_loop_fuel; [rewrite app_length; cbn; lia|lia]. }
+  destruct e; try exact H. contradiction.
+Qed.
+
+Lemma hl_lines : forall ls es st tail, Forall2 line_entry ls es ->
+  hl st (unlines ls ++ tail) = hl (fold_left apply_entry es st) tail.
+Proof.
+  induction ls as [|l ls IH]; intros es st tail H; inversion H; subst; [reflexivity|].
+  cbn [unlines flat_map fold_left]. rewrite <- !app_assoc. cbn [app].
+  rewrite (hl_step st l y) by assumption. apply IH. assumption.
+Qed.
+
+Lemma pe_nodes : parse_entry (bs ".nodes") = HOk ENodes.
+Proof. vm_compute. reflexivity. Qed.
+
+Lemma hl_nodes st rest : hl st (bs ".nodes" ++ 10 :: rest) = HOk (st, rest).
+Proof.
+  unfold hl. rewrite header_loop_S.
+  rewrite read_line_plain by (split; [discriminate|apply Forall_okb_bs_key; reflexivity]).
+  rewrite pe_nodes. reflexivity.
+Qed.
+
+(** the local variables of the loader after the header lines of [print_header x] *)
+Definition st_of (x : xheader) : hstate :=
+  mkHS (x_ascii x) VINone (utf8_lossy (trim (wdd x))) (x_nnodes x) (x_nvars x) (len (x_supp x)) (len (x_rootids x))
+       (x_ids x) (x_permids x) []
+       (match x_names x with Some ns => if x_ver3 x then ns else [] | None => [] end)
+       (match x_names x with Some ns => map (name_of ns) (x_ids x) | None => [] end)
+       (match x_names x with Some ns => map (name_of ns) (x_l2v x) | None => [] end)
+       (x_rootids x)
+       (match x_rootnames x with Some rn => rn | None => [] end).
+
+Lemma fold_entries x : fold_left apply_entry (xentries x) init_state = st_of x.
+Proof.
+  unfold xentries, st_of, wdd.
+  destruct (x_dd x) as [|c dd], (x_names x) as [names|], (x_ver3 x), (x_rootnames x) as [rn|]; reflexivity.
+Qed.
+
+Lemma header_loop_print x rest : xwf x ->
+  header_loop (S (length (print_header x ++ rest))) init_state (print_header x ++ rest) = HOk (st_of x, rest).
+Proof.
+  intros Hx. change (hl init_state (print_header x ++ rest) = HOk (st_of x, rest)).
+  rewrite print_header_lines, <- !app_assoc. cbn [app].
+  rewrite (hl_lines _ _ _ _ (lines_entries x Hx)), fold_entries.
+  apply (hl_nodes (st_of x) rest).
+Qed.
